@@ -55,11 +55,11 @@ pub fn boundary_rows(rng: &mut Rng, lex: &mut Lexicon, nid: i64, heavy: bool) {
             }
         }
         if rng.chance(1, 3) {
-            let cnt = *rng.pick(&[1usize, 2, 126, 127]);
+            let cnt = *rng.pick(&[1usize, 2, 63, 64, 65, 100, 126, 127]);
             e.synonyms = (0..cnt).map(|i| (i as u32) * 7919 % 1_000_000).collect();
         }
         if rng.chance(1, 4) && !lex.entries.is_empty() {
-            let cnt = *rng.pick(&[1usize, 127]);
+            let cnt = *rng.pick(&[1usize, 63, 64, 65, 127]);
             let dic = if lex.user { 1 } else { 0 };
             e.word_structure = (0..cnt).map(|_| Ref { dic, row: rng.below(lex.entries.len()), inline: false }).collect();
         }
@@ -149,9 +149,19 @@ fn expected_entry(world: &World, dic: usize, row: usize) -> Vec<Option<String>> 
 fn world_inputs(seed: u64, wi: u64, miri: bool) -> (crate::model::Matrix, crate::model::Lexicon, Rng) {
     let mut rng = Rng::derive(seed, 0xC05, wi);
     let dopts = DictOpts { cost_extremes: true, max_entries: if miri { 10 } else { 40 }, ..DictOpts::default() };
-    let matrix = dictgen::gen_matrix(&mut rng, &dopts);
+    let mut matrix = dictgen::gen_matrix(&mut rng, &dopts);
     let mut sys = dictgen::gen_system(&mut rng, &dopts, &matrix);
     boundary_rows(&mut rng, &mut sys, matrix.nid() as i64, wi % 16 == 0 && !miri);
+    if wi % 3 == 1 {
+        // a matrix text that lists only part of the cells: the others cost 0
+        let mut r2 = Rng::derive(seed, 0xC05D, wi);
+        for c in matrix.cells.iter_mut() {
+            if r2.chance(1, 3) {
+                *c = 0;
+            }
+        }
+        matrix.sparse = true;
+    }
     (matrix, sys, rng)
 }
 
@@ -196,6 +206,9 @@ pub fn run(ctx: &Ctx, rep: &mut Report) {
             }
         };
         rep.count("worlds", 1);
+        if world.matrix.sparse {
+            rep.count("worlds_with_sparse_matrix_text", 1);
+        }
         rep.eval();
         let scenario = |extra: &str| json!({"world_index": wi, "detail": extra, "world": world.describe(true)});
         let mut world_ok = true;
